@@ -229,8 +229,7 @@ func verifRunMulti(c verifC01Case) (out verifC01Out) {
 		I := &verifMInst{named: kind == 1, src: &verifC01Src{}}
 		if I.named {
 			// names of one case differ as little as names can: case, trailing blank, prefix
-			I.name = fmt.Sprintf("verif-c01-%d-%d-", c.ID, c.Base) + []string{"n", "N", "n ", "nn"}[i%4] +
-				fmt.Sprint(i/4)
+			I.name = fmt.Sprintf("verif-c01-%d-%d-%d-", c.ID, c.Base, i/4) + []string{"n", "N", "n ", "nn"}[i%4]
 		} else {
 			I.brk = NewBreaker()
 			gb, err := verifUnwrap(I.brk)
